@@ -43,7 +43,7 @@ EXPECT_COUNTS = ["table_b1_oracle_points", "kernel_grid_points_g_phi", "kernel_g
                  "int_dtype:uint16", "int_dtype:int64", "int_dtype:both-narrow", "int_dtype:consistent", "integral_rounds", "pointwise_rounds",
                  "infinite_data_rounds", "infinite_data:defined", "infinite_data:consistent_quantile", "ok", "err:ValueError", "shape:trap", "shape:rect",
                  "fn:tw_squared_error", "fn:tw_absolute_error", "fn:tw_quantile_score", "fn:tw_expectile_score", "fn:tw_huber_loss", "ends:array",
-                 "ends:scalar", "ends:infinite", "malformed:", "data:infinite", "consistent:quantile", "consistent:expectile", "consistent:huber"]
+                 "ends:scalar", "ends:infinite", "ends:scalar-and-array", "perdim:scalar-and-array", "defaults_corpus", "data:obs-only-dim", "malformed:", "data:infinite", "consistent:quantile", "consistent:expectile", "consistent:huber"]
 # repaired by repo_fixes/consistent-scores-integer-dtype.diff: `obs - fcst` / `fcst - obs` were taken in the integer storage dtype of the data
 KEY_INT_DIFF = "consistent-scores-integer-dtype"
 FNS = ["tw_squared_error", "tw_absolute_error", "tw_quantile_score", "tw_expectile_score", "tw_huber_loss"]
@@ -111,6 +111,13 @@ def gen_ends(rng, sizes, perms, trap, bad=False):
         c.append(INF if rinf else float(hi))
         a.append(-INF if linf else float(lo - Fr(rng.randint(1, 4), 2)))
         d.append(INF if rinf else float(hi + Fr(rng.randint(1, 4), 2)))
+    if mode == "mixed" and n > 1 and rng.random() < 0.7:
+        # one side of the interval(s) the same for every slice, so that it is given as ONE Python scalar next to a per-dimension array
+        # for the other side: (-inf, t[station]), (t[station], inf), (0, t[station]) ...
+        if rng.random() < 0.5:
+            b, a = [min(b)] * n, [min(a)] * n
+        else:
+            c, d = [max(c)] * n, [max(d)] * n
     what = None
     if bad:
         i = rng.randrange(n)
@@ -149,10 +156,11 @@ def gen_ends(rng, sizes, perms, trap, bad=False):
     def pair(u, v):
         if mode == "mixed" and edims:
             # (scalar, array) and (array, scalar): both members are converted when either is a Python number (7c177ef)
+            sc = lambda x: int(x) if (float(x).is_integer() and rng.random() < 0.3) else x      # noqa: E731
             if all(x == u[0] for x in u) and rng.random() < 0.6:
-                return (u[0], arr(v, False))
+                return (sc(u[0]), arr(v, False))
             if all(x == v[0] for x in v):
-                return (arr(u, False), v[0])
+                return (arr(u, False), sc(v[0]))
             return (arr(u, False), arr(v, False))
         su = arr(u, True)
         sv = arr(v, True)
@@ -171,8 +179,16 @@ def gen_case(ctx, bad=False):
     sizes = gens.rand_sizes(rng)
     perms = {d: rng.sample(range(sizes[d]), sizes[d]) for d in sizes}
     operms = {d: rng.sample(range(sizes[d]), sizes[d]) for d in sizes}      # obs in its own storage order (5f9b684)
-    fcst = mk(rng, sizes, sizes, perms, nan_p=0.12 if rng.random() < 0.4 else 0.0)
+    fdims = list(sizes)
     odims = gens.sub_dims(rng, sizes, p_drop=0.25)
+    obs_only = len(sizes) > 1 and rng.random() < 0.2
+    if obs_only:        # a dimension only the observations have: one standing forecast per station against a series of observations
+        fdims = gens.sub_dims(rng, sizes, p_drop=0.5, keep_at_least=1)
+        if len(fdims) == len(sizes):
+            fdims.pop(rng.randrange(len(fdims)))
+        odims = [d for d in sizes if d not in fdims] + [d for d in fdims if rng.random() < 0.6]
+        ctx.count("data:obs-only-dim")
+    fcst = mk(rng, sizes, fdims, perms, nan_p=0.12 if rng.random() < 0.4 else 0.0)
     obs = mk(rng, sizes, odims, operms, nan_p=0.12 if rng.random() < 0.3 else 0.0)
     if rng.random() < 0.4:
         obs = gens.force_ties(rng, fcst, obs)
@@ -418,12 +434,12 @@ def consistent_grid(ctx):
     n = 0
     for g, phi, phip in code_sets(ctx.rng):
         for kind, param in (("quantile", Fr(1, 4)), ("expectile", Fr(7, 10)), ("huber", Fr(3, 2))):
-            if kind == "quantile":
-                impl = C.consistent_quantile_score(F, O, float(param), py_code(g), preserve_dims="all").values
-            elif kind == "expectile":
-                impl = C.consistent_expectile_score(F, O, float(param), py_code(phi), py_code(phip), preserve_dims="all").values
-            else:
-                impl = C.consistent_huber_score(F, O, float(param), py_code(phi), py_code(phip), preserve_dims="all").values
+            cargs = (py_code(g),) if kind == "quantile" else (py_code(phi), py_code(phip))
+            st, impl = core.call_impl(getattr(C, f"consistent_{kind}_score"), F, O, float(param), *cargs, preserve_dims="all")
+            if st != "ok":
+                ctx.violation(f"consistent_{kind}_score raised on valid input", {"g": g, "phi": phi, "phi_prime": phip, "param": param, "fcst, obs": "grid k/2 and NaN"}, "values", impl)
+                continue
+            impl = impl.values
             for i, (f, o) in enumerate(pts):
                 m = core.dec_num(ctx.model("c10_k_consistent", enc_list([enc_str(kind), enc_code(g), enc_code(phi), enc_code(phip),
                                                                          enc_num(f), enc_num(o), enc_num(param)])))
@@ -522,9 +538,13 @@ def pointwise_props(ctx, rounds, use_model=True):
         ctx.count("pointwise_rounds")
     # cross-check weight one against the library's own unweighted scores
     alpha = rng.choice(ALPHAS)
-    for name, a1, b1 in (("mse", C.tw_squared_error(F, O, (-INF, INF), **P), C.mse(F, O, **P)),
-                         ("mae", C.tw_absolute_error(F, O, (-INF, INF), **P), C.mae(F, O, **P)),
-                         ("quantile_score", C.tw_quantile_score(F, O, float(alpha), (-INF, INF), **P), C.quantile_score(F, O, float(alpha), preserve_dims=["x"]))):
+    for name, c1, b1 in (("mse", lambda: C.tw_squared_error(F, O, (-INF, INF), **P), C.mse(F, O, **P)),
+                         ("mae", lambda: C.tw_absolute_error(F, O, (-INF, INF), **P), C.mae(F, O, **P)),
+                         ("quantile_score", lambda: C.tw_quantile_score(F, O, float(alpha), (-INF, INF), **P), C.quantile_score(F, O, float(alpha), preserve_dims=["x"]))):
+        st, a1 = core.call_impl(c1)
+        if st != "ok":
+            ctx.violation(f"tw with weight one raised on valid input ({name})", {"interval_where_one": ("-inf", "inf"), "alpha": alpha}, "values", a1)
+            continue
         if not np.allclose(a1.values, b1.values, rtol=1e-9, atol=1e-12):
             i = int(np.argmax(np.abs(a1.values - b1.values)))
             ctx.violation(f"tw with weight one differs from {name}", {"fcst": pts[i][0], "obs": pts[i][1], "alpha": alpha}, float(b1.values[i]), float(a1.values[i]))
@@ -575,7 +595,12 @@ def integral_props(ctx, rounds):
 
         def integral(functional, al):
             kw = {"huber_a": float(hub)} if functional == "huber" else {}
-            ms = C.murphy_score(F, O, [float(t) for t in nodes], functional=functional, alpha=float(al), preserve_dims="all", **kw)["total"].values.ravel()
+            st, ms = core.call_impl(C.murphy_score, F, O, [float(t) for t in nodes], functional=functional, alpha=float(al), preserve_dims="all", **kw)
+            if st != "ok":
+                ctx.violation("murphy_score raised on valid input (integrand of the integral representation)",
+                              {"fcst": f, "obs": o, "thetas": nodes, "functional": functional, "alpha": al, **kw}, "values", ms)
+                return None
+            ms = ms["total"].values.ravel()
             tot = Fr(0)
             for j, h in enumerate(hs):
                 g = [w(nodes[3 * j + i]) * Fr(float(ms[3 * j + i])) for i in range(3)]
@@ -583,9 +608,12 @@ def integral_props(ctx, rounds):
             return tot
         one = tuple(float(e) for e in (ends[1:3] if trap else ends))
         pos = (float(ends[0]), float(ends[3])) if trap else None
-        want = {"tw_squared_error": 4 * integral("expectile", Fr(1, 2)), "tw_absolute_error": 2 * integral("quantile", Fr(1, 2)),
-                "tw_quantile_score": integral("quantile", alpha), "tw_expectile_score": 2 * integral("expectile", alpha),
-                "tw_huber_loss": 2 * integral("huber", Fr(1, 2))}
+        ints = {key: integral(*key) for key in (("expectile", Fr(1, 2)), ("quantile", Fr(1, 2)), ("quantile", alpha), ("expectile", alpha), ("huber", Fr(1, 2)))}
+        if any(v is None for v in ints.values()):
+            continue
+        want = {"tw_squared_error": 4 * ints[("expectile", Fr(1, 2))], "tw_absolute_error": 2 * ints[("quantile", Fr(1, 2))],
+                "tw_quantile_score": ints[("quantile", alpha)], "tw_expectile_score": 2 * ints[("expectile", alpha)],
+                "tw_huber_loss": 2 * ints[("huber", Fr(1, 2))]}
         for fn in FNS:
             p = {"tw_quantile_score": alpha, "tw_expectile_score": alpha, "tw_huber_loss": hub}.get(fn)
             st, v = call_tw(fn, F, O, p, one, pos, pd="all")
@@ -699,7 +727,14 @@ def perdim_props(ctx, rounds):
             c.append(None if rng.random() < 0.45 else hi)
             a.append(None if b[i] is None else lo - Fr(rng.randint(1, 3), 2))
             d.append(None if c[i] is None else hi + Fr(rng.randint(1, 3), 2))
-        if all(x is None for x in c) or all(x is not None for x in c):     # make the right end points mixed
+        # one side given as ONE Python scalar (infinite, or finite beyond the other side's values) next to the per-dimension array of the other side
+        scalar_side = rng.choice([None, None, "lo", "hi"])
+        sval = None if rng.random() < 0.6 else (Fr(rng.randint(-12, -8), 2) if scalar_side == "lo" else Fr(rng.randint(9, 12), 2))
+        if scalar_side == "lo":
+            b, a = [sval] * n, [None if sval is None else sval - 1] * n
+        elif scalar_side == "hi":
+            c, d = [sval] * n, [None if sval is None else sval + 1] * n
+        elif all(x is None for x in c) or all(x is not None for x in c):     # make the right end points mixed
             c[0], d[0] = None, None
             hi = Fr(rng.randint(-6, 0), 2)
             c[1], d[1] = max(hi, (b[1] if b[1] is not None else hi - 1) + Fr(1, 2)), None
@@ -713,6 +748,12 @@ def perdim_props(ctx, rounds):
         O = xr.DataArray([float(ov[i]) for i in perm["o"]], dims=["x"], coords={"x": perm["o"]})
         one = (arr(b, "b", True), arr(c, "c", False))
         pos = (arr(a, "a", True), arr(d, "d", False)) if trap else None
+        if scalar_side is not None:
+            sc = lambda da: (lambda x: int(x) if (float(x).is_integer() and rng.random() < 0.3) else x)(float(da.values[0]))      # noqa: E731
+            one = (sc(one[0]), one[1]) if scalar_side == "lo" else (one[0], sc(one[1]))
+            if trap:
+                pos = (sc(pos[0]), pos[1]) if scalar_side == "lo" else (pos[0], sc(pos[1]))
+            ctx.count("perdim:scalar-and-array")
         alpha, hub = rng.choice(ALPHAS), rng.choice(HUBERS)
         far_lo, far_hi = min(fv + ov) - 50, max(fv + ov) + 50
         for k, fn in enumerate(FNS):
@@ -720,7 +761,7 @@ def perdim_props(ctx, rounds):
             st, v = call_tw(fn, F, O, p, one, pos, pd="all")
             case = {"fn": fn, "param": p, "fcst": fv, "obs": ov, "interval_where_one": [["-inf" if x is None else x for x in b], ["inf" if x is None else x for x in c]],
                     "interval_where_positive": None if not trap else [["-inf" if x is None else x for x in a], ["inf" if x is None else x for x in d]],
-                    "storage_order": perm}
+                    "storage_order": perm, "given_as_one_python_scalar": {"lo": "left end point(s)", "hi": "right end point(s)"}.get(scalar_side)}
             ctx.case(("perdim", fn, repr(case)))
             if st != "ok":
                 ctx.violation("tw_* raised on valid per-dimension end points", case, "values", v)
@@ -784,6 +825,9 @@ def means_props(ctx, rounds):
                 ctx.violation("tw_* raised on valid input", case, "values", v)
                 continue
             da = v
+            if set(da.dims) != set(keep):
+                ctx.violation("tw_*: dimensions of the result are not the preserved dimensions (a dimension was left un-averaged / dropped)", case, keep, list(da.dims))
+                break
             for dname in keep:
                 da = da.sortby(dname)
             got = da.transpose(*keep).values
@@ -1122,6 +1166,12 @@ def near_tie_props(ctx, rounds):
     ctx.count("near_tie_decisive_points", decisive)
 
 
+def same_scalar(want, got):
+    """both calls returned, both results are 0-d (every dimension averaged out), and they agree"""
+    return (want[0] == got[0] == "ok" and np.ndim(want[1]) == 0 and np.ndim(got[1]) == 0
+            and (abs(float(want[1]) - float(got[1])) < 1e-12 or (np.isnan(float(want[1])) and np.isnan(float(got[1])))))
+
+
 def coord_order_finding(ctx):
     """corpus of repaired defects (5f9b684, 471de49, aeac0ee, 7c177ef): results must not depend on the storage order of a shared coordinate, and
     an end-point pair may mix arrays and Python scalars; a regression is a violation"""
@@ -1143,7 +1193,7 @@ def coord_order_finding(ctx):
         got = core.call_impl(call, o)
         ctx.case(("coord-order", name))
         ctx.count("coord_order_corpus")
-        same = want[0] == got[0] == "ok" and abs(float(want[1]) - float(got[1])) < 1e-12
+        same = same_scalar(want, got)
         if not same:
             ctx.violation(f"{name} depends on the storage order of a coordinate shared by fcst and obs",
                           {"fn": name, "fcst": gens.da_repr(f), "obs": gens.da_repr(o)}, str(want[1]), str(got[1]))
@@ -1159,7 +1209,7 @@ def coord_order_finding(ctx):
             want = core.call_impl(fn, f, o_same, *args, (A0, B0), **kw0)
             got = core.call_impl(fn, f, o_same, *args, (A, B), **kw1)
             ctx.case(("endpoint-order", name, pos))
-            same = want[0] == got[0] == "ok" and abs(float(want[1]) - float(got[1])) < 1e-12
+            same = same_scalar(want, got)
             if not same:
                 ctx.violation(f"{name} depends on the storage order of the coordinate of a per-dimension end-point array",
                               {"fn": name, "fcst": gens.da_repr(f), "obs": gens.da_repr(o_same), "interval_where_one": [gens.da_repr(A), gens.da_repr(B)], "trapezoidal": pos},
@@ -1175,7 +1225,7 @@ def coord_order_finding(ctx):
             want = core.call_impl(fn, ff, oo, *args, (A1.sel(d=f1.d), B1.sel(d=f1.d)))
             got = core.call_impl(fn, ff, oo, *args, (A1, B1))
             ctx.case(("endpoint-order-one-sided", name, ff is f1))
-            if not (want[0] == got[0] == "ok" and abs(float(want[1]) - float(got[1])) < 1e-12):
+            if not (same_scalar(want, got)):
                 ctx.violation(f"{name} depends on the storage order of an end-point array along a dimension only one of fcst / obs has",
                               {"fn": name, "fcst": gens.da_repr(ff), "obs": gens.da_repr(oo), "interval_where_one": [gens.da_repr(A1), gens.da_repr(B1)]},
                               str(want[1]), str(got[1]))
@@ -1335,6 +1385,63 @@ def infinite_data_props(ctx, rounds):
 
 
 # ------------------------------------------------------------------------------------------
+def defaults_corpus(ctx):
+    """DEFAULTS: every optional argument of the five tw_* (interval_where_positive, reduce_dims, preserve_dims, weights: all None) and of the
+    three consistent_* (reduce_dims, preserve_dims, weights) OMITTED gives exactly the call with the documented default written out, and
+    the exact oracle of that default: rectangular weight, unweighted mean over every dimension of forecast AND observations (the
+    observations carry a dimension t the forecast does not have); the reduction requests naming either dimension; weights given"""
+    C = S()
+    fv = [Fr(0), Fr(2), Fr(3, 2)]
+    ov = [[Fr(1), Fr(2), Fr(-1, 2)], [Fr(3), None, Fr(3, 2)]]
+    wv = [Fr(1), Fr(0), Fr(5, 2)]
+    F = xr.DataArray([float(v) for v in fv], dims=["b"], coords={"b": [0, 1, 2]})
+    O = xr.DataArray([[NAN if v is None else float(v) for v in row] for row in ov], dims=["t", "b"], coords={"t": [0, 1], "b": [0, 1, 2]})
+    W = xr.DataArray([float(v) for v in wv], dims=["b"], coords={"b": [0, 1, 2]})
+    alpha, hub = Fr(1, 4), Fr(3, 2)
+    ends = (Fr(1, 2), Fr(2))
+    one = (0.5, 2.0)
+    pairs = [(i, l) for i in range(2) for l in range(3) if ov[i][l] is not None]
+    sq, two = (lambda x: x ** 2), (lambda x: 2 * x)
+    calls = [(fn, ({"tw_quantile_score": (float(alpha),), "tw_expectile_score": (float(alpha),), "tw_huber_loss": (float(hub),)}.get(fn, ()) + (one,)),
+              {"interval_where_positive": None}, (lambda f, o, k=k: orc_tw(ends, alpha, hub, f, o)[k])) for k, fn in enumerate(FNS)]
+    calls += [("consistent_quantile_score", (float(alpha), lambda x: x), {}, lambda f, o: orc_losses(alpha, hub, f, o)[2]),
+              ("consistent_expectile_score", (float(alpha), sq, two), {}, lambda f, o: orc_losses(alpha, hub, f, o)[3]),
+              ("consistent_huber_score", (float(hub), sq, two), {}, lambda f, o: orc_losses(alpha, hub, f, o)[4])]
+    for name, args, extra, orc in calls:
+        f = getattr(C, name)
+        case = {"fn": name, "args": [x if not callable(x) else "<x / x^2 / 2x>" for x in args], "fcst[b]": fv, "obs[t][b]": ov}
+        pt = {(i, l): orc(fv[l], ov[i][l]) for i, l in pairs}
+        r0 = core.call_impl(f, F, O, *args)
+        r1 = core.call_impl(f, F, O, *args, reduce_dims=None, preserve_dims=None, weights=None, **extra)
+        want = sum(pt.values()) / len(pt)
+        ctx.case(("defaults", name))
+        ctx.count("defaults_corpus")
+        if not (r0[0] == r1[0] == "ok" and r0[1].dims == () and r0[1].identical(r1[1]) and core.close(float(r0[1]), want)):
+            ctx.violation(name + " with the optional arguments omitted is not the documented default (None: rectangular weight, unweighted mean over every "
+                          "dimension of forecast and observations) / differs from the call with the defaults written out", case, want,
+                          {"omitted": str(r0[1])[:160], "written out": str(r1[1])[:160]})
+            continue
+        # the reduction requests naming either dimension (t is a dimension only the observations have), without and with weights
+        for kw, keep in (({"preserve_dims": ["b"]}, "b"), ({"reduce_dims": ["t"]}, "b"), ({"preserve_dims": "t"}, "t"), ({"reduce_dims": "b"}, "t"),
+                         ({"preserve_dims": ["b"], "weights": W}, "b"), ({"reduce_dims": ["b"], "weights": W}, "t")):
+            st, r = core.call_impl(f, F, O, *args, **kw)
+            ctx.case(("defaults", name, repr(sorted(kw))))
+            wts = wv if "weights" in kw else [Fr(1)] * 3
+            ok = st == "ok" and r.dims == (keep,)
+            wantv = None
+            if ok:
+                wantv = []
+                for c in range(3 if keep == "b" else 2):
+                    vals = [wts[l] * pt[(i, l)] for i, l in pairs if (l if keep == "b" else i) == c]
+                    wantv.append(sum(vals) / len(vals) if vals else NAN)
+                ok = all(core.close(float(g), w) for g, w in zip(r.sortby(keep).values, wantv))
+            if not ok:
+                ctx.violation(name + ": reduction request over forecast / observation-only dimensions differs from the (weighted) mean over the valid cases",
+                              dict(case, **{k2: (v if k2 != "weights" else wv) for k2, v in kw.items()}), wantv if wantv is not None else [keep],
+                              str(r if st != "ok" else r.values.tolist())[:200])
+                break
+
+
 def model_available(ctx):
     b = getattr(ctx, "build", None) or {}
     return "C10" not in (b.get("excluded_models") or []) and b.get("files", {}).get("model/C10.v", {}).get("ok", True)
@@ -1347,6 +1454,7 @@ def run_without_model(ctx):
     table_b1_oracle(ctx)
     coord_order_finding(ctx)
     guard_probes(ctx)
+    defaults_corpus(ctx)
     near_tie_props(ctx, ctx.n(30, 300))
     replacement_props(ctx, ctx.n(6, 80))
     perdim_props(ctx, ctx.n(25, 400))
@@ -1368,6 +1476,7 @@ def run(ctx):
     kernel_grids(ctx)
     coord_order_finding(ctx)
     guard_probes(ctx)
+    defaults_corpus(ctx)
     near_tie_props(ctx, ctx.n(30, 300))
     replacement_props(ctx, ctx.n(6, 80))
     perdim_props(ctx, ctx.n(25, 400))
@@ -1392,6 +1501,8 @@ def run(ctx):
         ctx.count("shape:" + ("trap" if c["pos"] is not None else "rect"))
         ctx.count("fn:" + c["fn"])
         ctx.count("ends:" + ("array" if any(isinstance(x, xr.DataArray) for x in c["one"]) else "scalar"))
+        if len({isinstance(x, xr.DataArray) for x in c["one"][:2]}) == 2 and impl[0] == "ok":
+            ctx.count("ends:scalar-and-array")
         if any((not isinstance(x, xr.DataArray) and abs(x) == INF) or (isinstance(x, xr.DataArray) and bool(np.isinf(x).any())) for x in c["one"]):
             ctx.count("ends:infinite")
         if c["bad"]:
